@@ -395,7 +395,10 @@ impl B for RotoString {
         v.into_iter().map(|s| RotoString::from(s.as_str())).collect()
     }
     fn show(&self) -> String {
-        format!("{:?}", self.to_string())
+        // a string read from the wrong place may hold arbitrary bytes: the
+        // rendering must stay valid UTF-8 (it travels in the result line)
+        let s = self.to_string();
+        format!("{:?}", String::from_utf8_lossy(s.as_bytes()))
     }
     fn lit(&self) -> Option<String> {
         Some(format!("\"{}\"", self.to_string().escape_default()))
